@@ -1,6 +1,1392 @@
-//! C10 — not implemented yet.
+//! C10 — Every NFT has exactly one owner; enumerations mirror ownership.
+//!
+//! Oracle: a plain `BTreeMap<id, owner>` plus the set of ever-issued ids.  After EVERY step
+//! `owner_of(id)` (library getter of the right flavour, bulk-read inside contract frames of
+//! FRAME_CHUNK ids, every getter call individually guarded) equals the map for every existing id,
+//! fails (entry point `try` call) for burned ids, for the margin beyond the id counter and for
+//! sampled unissued ids; `balance(a)` equals the number of a's tokens; only the touched token
+//! changed; sequential/batch ids strictly increase and are never reused; `token_uri` exists
+//! exactly for existing ids; the enumerable lists hold each existing token exactly once (order is
+//! never asserted).
+//!
+//! Scan policy (cost: the test host charges O(#keys already read) for the first read of a key):
+//! full scan after every step while <= 700 (thorough 1500) tokens exist; beyond that windows
+//! (+-40 around the recently touched ids, batch edges, bucket edges, narrow windows around older
+//! touched ids, ids spread over the range) after every step and EVERYTHING at the end of the
+//! history.  Full scans of > 1200 ids are sharded over fresh Envs in which the logged successful
+//! calls are re-run (deterministic host).  Thorough: the `giant` sub scans everything after every
+//! step, bucket-sized histories after every 4th step.
+//!
+//! The first half of this file is the NFT driver shared with C11 (`pub` items).
+
 use crate::engine::*;
+use crate::envx::{self, Inv};
+use crate::gen::pick;
+use proptest::prelude::*;
+use serde::{Deserialize, Serialize};
+use soroban_sdk::{Address, Env, IntoVal, String as SString, TryFromVal, Val, Vec as SVec};
+use std::collections::{BTreeMap, BTreeSet};
+use std::panic::{catch_unwind, AssertUnwindSafe};
+use stellar_tokens::non_fungible::{consecutive::Consecutive, enumerable::Enumerable, Base};
+
+// ======================================================================== shared NFT driver
+
+/// Documented constants of the consecutive extension (module docs: 100 items x 32 ids per
+/// bucket, at most 32 000 tokens per batch).  Hard-coded on purpose: they are the oracle.
+pub const BUCKET: u32 = 3_200;
+pub const MAX_BATCH: u32 = 32_000;
+/// explicit-id mints use ids from here upwards (disjoint from the sequential range, DESIGN §7)
+pub const HIGH_BASE: u32 = 1 << 20;
+/// ids read per `as_contract` frame.  DESIGN allows up to 4000, but the recording footprint of the
+/// test host is rebuilt on every first access of a key inside a frame (O(keys in frame) each), so a
+/// frame's cost is quadratic in its size: 64 ids per frame is ~8x cheaper than 4000.
+pub const FRAME_CHUNK: usize = 64;
+
+#[derive(Clone, Copy, Debug, Serialize, Deserialize, PartialEq, Eq, PartialOrd, Ord)]
+pub enum Kind {
+    Base,
+    Enum,
+    Cons,
+}
+
+#[derive(Clone, Copy, Debug, Serialize, Deserialize, PartialEq, Eq, PartialOrd, Ord)]
+pub enum Target {
+    /// examples/nft-sequential-minting
+    ExBase,
+    /// harness twin: sequential + explicit-id `Base::mint`
+    XBase,
+    /// examples/nft-enumerable
+    ExEnum,
+    /// harness twin: `Enumerable::sequential_mint` + `non_sequential_mint`
+    XEnum,
+    /// examples/nft-consecutive
+    ExCons,
+    /// harness twin with trait defaults
+    XCons,
+}
+impl Target {
+    pub fn kind(self) -> Kind {
+        match self {
+            Target::ExBase | Target::XBase => Kind::Base,
+            Target::ExEnum | Target::XEnum => Kind::Enum,
+            Target::ExCons | Target::XCons => Kind::Cons,
+        }
+    }
+    pub fn explicit(self) -> bool {
+        matches!(self, Target::XBase | Target::XEnum)
+    }
+    pub fn is_example(self) -> bool {
+        matches!(self, Target::ExBase | Target::ExEnum | Target::ExCons)
+    }
+    pub fn kname(self) -> &'static str {
+        match self.kind() {
+            Kind::Base => "base",
+            Kind::Enum => "enum",
+            Kind::Cons => "cons",
+        }
+    }
+}
+
+pub struct Nft {
+    pub e: Env,
+    pub addr: Address,
+    pub target: Target,
+    /// mint authority (the examples' `owner`)
+    pub admin: Address,
+    pub accts: Vec<Address>,
+}
+
+fn s(e: &Env, x: &str) -> SString {
+    SString::from_str(e, x)
+}
+
+pub fn svec(e: &Env, args: &[Val]) -> SVec<Val> {
+    let mut v = SVec::new(e);
+    for a in args {
+        v.push_back(*a);
+    }
+    v
+}
+
+/// Observed enumerable lists (`None` = the getter failed for an index below the count).
+#[derive(Clone, Debug, PartialEq, Eq)]
+pub struct EnumDump {
+    pub total: u32,
+    pub global: Vec<Option<u32>>,
+    pub per_owner: Vec<Vec<Option<u32>>>,
+}
+
+impl Nft {
+    pub fn setup(target: Target, n_accts: usize, seq: u32, max_ttl: u32) -> Nft {
+        use crate::contracts::c10::*;
+        use crate::examples as ex;
+        let e = envx::new_env(seq, max_ttl);
+        // soroban-sdk 25 enforces the mainnet per-invocation resource limits in tests by default; the
+        // bulk-read frames (thousands of getter calls) and 32 000-token batches are far beyond them and
+        // resource limits are not what C10/C11 are about.
+        e.cost_estimate().disable_resource_limits();
+        let admin = envx::actor(&e);
+        let accts = envx::actors(&e, n_accts);
+        let ctor = (s(&e, "https://nft.example/t/"), s(&e, "Verif NFT"), s(&e, "VNFT"), admin.clone());
+        let addr = match target {
+            Target::ExBase => e.register(ex::nft_sequential_minting::contract::ExampleContract, ctor),
+            Target::XBase => e.register(nft_base_x::NftBaseX, ctor),
+            Target::ExEnum => e.register(ex::nft_enumerable::contract::ExampleContract, ctor),
+            Target::XEnum => e.register(nft_enum_x::NftEnumX, ctor),
+            Target::ExCons => e.register(ex::nft_consecutive::contract::ExampleContract, ctor),
+            Target::XCons => e.register(nft_cons_x::NftConsX, ctor),
+        };
+        envx::no_auth(&e);
+        Nft { e, addr, target, admin, accts }
+    }
+
+    pub fn inv(&self, func: &str, args: &[Val]) -> Inv {
+        Inv { contract: self.addr.clone(), func: func.to_string(), args: args.to_vec(), subs: vec![] }
+    }
+
+    /// Invoke with exactly the given authorization entries attached.
+    pub fn invoke_with(&self, func: &str, args: &[Val], entries: &[(Address, Inv)]) -> Result<Val, String> {
+        let e = &self.e;
+        let refs: Vec<(&Address, &Inv)> = entries.iter().map(|(a, i)| (a, i)).collect();
+        envx::set_auth(e, &refs);
+        let r = envx::call(e, &self.addr, func, svec(e, args));
+        envx::no_auth(e);
+        r
+    }
+    /// Invoke with the exact authorization of `signer` (or none).
+    pub fn invoke(&self, func: &str, args: &[Val], signer: Option<&Address>) -> Result<Val, String> {
+        match signer {
+            Some(a) => self.invoke_with(func, args, &[(a.clone(), self.inv(func, args))]),
+            None => self.invoke_with(func, args, &[]),
+        }
+    }
+    /// Read-only entry-point call (no authorization attached).
+    pub fn get<T: TryFromVal<Env, Val>>(&self, func: &str, args: &[Val]) -> Result<T, String> {
+        envx::call_t::<T>(&self.e, &self.addr, func, svec(&self.e, args))
+    }
+
+    pub fn v<T: IntoVal<Env, Val>>(&self, x: &T) -> Val {
+        x.into_val(&self.e)
+    }
+
+    // ---- mint entry points (admin's exact authorization)
+    pub fn mint_seq(&self, to: &Address) -> Result<u32, String> {
+        let args = [self.v(to)];
+        let r = self.invoke("mint", &args, Some(&self.admin))?;
+        u32::try_from_val(&self.e, &r).map_err(|_| "mint: unexpected return type".to_string())
+    }
+    pub fn mint_id(&self, to: &Address, id: u32) -> Result<(), String> {
+        let args = [self.v(to), self.v(&id)];
+        self.invoke("mint_id", &args, Some(&self.admin)).map(|_| ())
+    }
+    pub fn batch_mint(&self, to: &Address, n: u32) -> Result<u32, String> {
+        let args = [self.v(to), self.v(&n)];
+        let r = self.invoke("batch_mint", &args, Some(&self.admin))?;
+        u32::try_from_val(&self.e, &r).map_err(|_| "batch_mint: unexpected return type".to_string())
+    }
+
+    // ---- entry-point getters
+    pub fn api_owner_of(&self, id: u32) -> Result<Address, String> {
+        self.get::<Address>("owner_of", &[self.v(&id)])
+    }
+    pub fn api_balance(&self, a: &Address) -> Result<u32, String> {
+        self.get::<u32>("balance", &[self.v(a)])
+    }
+    pub fn api_token_uri(&self, id: u32) -> Result<SString, String> {
+        self.get::<SString>("token_uri", &[self.v(&id)])
+    }
+    pub fn api_get_approved(&self, id: u32) -> Result<Option<Address>, String> {
+        self.get::<Option<Address>>("get_approved", &[self.v(&id)])
+    }
+    pub fn api_is_approved_for_all(&self, o: &Address, op: &Address) -> Result<bool, String> {
+        self.get::<bool>("is_approved_for_all", &[self.v(o), self.v(op)])
+    }
+
+    pub fn acct_index(&self, a: &Address) -> Option<usize> {
+        self.accts.iter().position(|x| x == a)
+    }
+
+    // ---- bulk reads through the library getters inside ONE contract frame per chunk.
+    // Each getter call is individually guarded, so a failing id is reported as `None`
+    // and the frame stays intact.
+
+    /// `owner_of` of the right flavour for every id, FRAME_CHUNK ids per contract frame.
+    pub fn read_owners(&self, ids: &[u32]) -> Vec<Option<Address>> {
+        let e = &self.e;
+        let kind = self.target.kind();
+        let mut out = Vec::with_capacity(ids.len());
+        for chunk in ids.chunks(FRAME_CHUNK) {
+            let part: Vec<Option<Address>> = e.as_contract(&self.addr, || {
+                chunk
+                    .iter()
+                    .map(|id| {
+                        catch_unwind(AssertUnwindSafe(|| match kind {
+                            Kind::Cons => Consecutive::owner_of(e, *id),
+                            _ => Base::owner_of(e, *id),
+                        }))
+                        .ok()
+                    })
+                    .collect()
+            });
+            out.extend(part);
+        }
+        out
+    }
+    /// does `token_uri` (right flavour) succeed for each id
+    pub fn read_uri_exists(&self, ids: &[u32]) -> Vec<bool> {
+        let e = &self.e;
+        let kind = self.target.kind();
+        let mut out = Vec::with_capacity(ids.len());
+        for chunk in ids.chunks(FRAME_CHUNK) {
+            let part: Vec<bool> = e.as_contract(&self.addr, || {
+                chunk
+                    .iter()
+                    .map(|id| {
+                        catch_unwind(AssertUnwindSafe(|| match kind {
+                            Kind::Cons => Consecutive::token_uri(e, *id),
+                            _ => Base::token_uri(e, *id),
+                        }))
+                        .is_ok()
+                    })
+                    .collect()
+            });
+            out.extend(part);
+        }
+        out
+    }
+    pub fn read_balances(&self) -> Vec<u32> {
+        let e = &self.e;
+        e.as_contract(&self.addr, || self.accts.iter().map(|a| Base::balance(e, a)).collect())
+    }
+    /// (get_approved per id, is_approved_for_all matrix [owner][operator]) — these getters cannot fail
+    pub fn read_approvals(&self, ids: &[u32]) -> (Vec<Option<Address>>, Vec<Vec<bool>>) {
+        let e = &self.e;
+        e.as_contract(&self.addr, || {
+            let ap = ids.iter().map(|id| Base::get_approved(e, *id)).collect();
+            let ops = self
+                .accts
+                .iter()
+                .map(|o| self.accts.iter().map(|op| Base::is_approved_for_all(e, o, op)).collect())
+                .collect();
+            (ap, ops)
+        })
+    }
+    /// enumerable lists: `n_global` global indices and `counts[a]` indices per account
+    pub fn read_enum(&self, n_global: u32, counts: &[u32]) -> EnumDump {
+        let e = &self.e;
+        let total = e.as_contract(&self.addr, || Enumerable::total_supply(e));
+        let mut global = Vec::with_capacity(n_global as usize);
+        let idx: Vec<u32> = (0..n_global).collect();
+        for chunk in idx.chunks(FRAME_CHUNK) {
+            let part: Vec<Option<u32>> = e.as_contract(&self.addr, || {
+                chunk.iter().map(|i| catch_unwind(AssertUnwindSafe(|| Enumerable::get_token_id(e, *i))).ok()).collect()
+            });
+            global.extend(part);
+        }
+        let per_owner = e.as_contract(&self.addr, || {
+            self.accts
+                .iter()
+                .zip(counts)
+                .map(|(a, n)| (0..*n).map(|i| catch_unwind(AssertUnwindSafe(|| Enumerable::get_owner_token_id(e, a, i))).ok()).collect())
+                .collect()
+        });
+        EnumDump { total, global, per_owner }
+    }
+}
+
+// ======================================================================== C10 case
+
+pub const N_ACCTS: usize = 4;
+
+#[derive(Clone, Debug, Serialize, Deserialize)]
+pub enum TokSel {
+    /// i-th existing token (model order)
+    Existing(u16),
+    /// edge of the i-th batch: 0 first, 1 last, 2 first+1, 3 last-1
+    BatchEdge(u16, u8),
+    /// BUCKET * k + d  (k-th bucket boundary, selector over the issued range)
+    BucketEdge(u16, i8),
+    /// i-th burned id
+    Burned(u16),
+    /// unissued: next sequential id + d
+    Fresh(u8),
+    /// neighbour (+d) of the i-th most recently touched id
+    Near(u16, i8),
+}
+
+#[derive(Clone, Debug, Serialize, Deserialize)]
+pub enum FromSel {
+    Owner,
+    /// some account, possibly not the owner (then the call must fail)
+    Acct(u16),
+}
+
+#[derive(Clone, Debug, Serialize, Deserialize)]
+pub enum SpSel {
+    Owner,
+    /// an operator the owner approved for all (falls back to Acct)
+    Operator(u16),
+    /// the account approved for this token (falls back to Acct)
+    Approved,
+    Acct(u16),
+}
+
+#[derive(Clone, Debug, Serialize, Deserialize)]
+pub enum IdSel {
+    /// HIGH_BASE + k
+    High(u8),
+    /// u32::MAX - k
+    Top(u8),
+    /// 2^31 - 2 + k
+    Mid(u8),
+    /// a burned explicit id (re-mint of an id that is not in use)
+    ReBurned(u16),
+}
+
+#[derive(Clone, Debug, Serialize, Deserialize)]
+pub enum Op {
+    Mint { to: u16 },
+    MintId { to: u16, id: IdSel },
+    Batch { to: u16, size: u32 },
+    Transfer { tok: TokSel, from: FromSel, to: u16 },
+    TransferFrom { tok: TokSel, spender: SpSel, from: FromSel, to: u16 },
+    Burn { tok: TokSel, from: FromSel },
+    BurnFrom { tok: TokSel, spender: SpSel, from: FromSel },
+    Approve { tok: TokSel, approved: u16 },
+    ApproveAll { owner: u16, operator: u16 },
+}
+
+#[derive(Clone, Debug, Serialize, Deserialize)]
+pub struct Case {
+    pub target: Target,
+    pub seq: u32,
+    pub ops: Vec<Op>,
+}
+
+fn tok_strategy(kind: Kind) -> BoxedStrategy<TokSel> {
+    let d = prop_oneof![Just(-1i8), Just(0i8), Just(1i8)];
+    let near = (any::<u16>(), prop_oneof![3 => Just(-1i8), 3 => Just(1i8), 1 => Just(-2i8), 1 => Just(2i8), 1 => Just(0i8)])
+        .prop_map(|(i, d)| TokSel::Near(i, d));
+    match kind {
+        Kind::Cons => prop_oneof![
+            3 => any::<u16>().prop_map(TokSel::Existing),
+            4 => (any::<u16>(), 0u8..4).prop_map(|(b, w)| TokSel::BatchEdge(b, w)),
+            3 => (any::<u16>(), d).prop_map(|(k, d)| TokSel::BucketEdge(k, d)),
+            5 => near,
+            1 => any::<u16>().prop_map(TokSel::Burned),
+            1 => (0u8..4).prop_map(TokSel::Fresh),
+        ]
+        .boxed(),
+        _ => prop_oneof![
+            8 => any::<u16>().prop_map(TokSel::Existing),
+            2 => near,
+            1 => any::<u16>().prop_map(TokSel::Burned),
+            1 => (0u8..4).prop_map(TokSel::Fresh),
+        ]
+        .boxed(),
+    }
+}
+
+fn from_strategy() -> BoxedStrategy<FromSel> {
+    prop_oneof![9 => Just(FromSel::Owner), 1 => any::<u16>().prop_map(FromSel::Acct)].boxed()
+}
+fn sp_strategy() -> BoxedStrategy<SpSel> {
+    prop_oneof![
+        3 => Just(SpSel::Owner),
+        3 => any::<u16>().prop_map(SpSel::Operator),
+        3 => Just(SpSel::Approved),
+        1 => any::<u16>().prop_map(SpSel::Acct),
+    ]
+    .boxed()
+}
+fn idsel_strategy() -> BoxedStrategy<IdSel> {
+    prop_oneof![
+        6 => (0u8..24).prop_map(IdSel::High),
+        2 => (0u8..3).prop_map(IdSel::Top),
+        1 => (0u8..4).prop_map(IdSel::Mid),
+        2 => any::<u16>().prop_map(IdSel::ReBurned),
+    ]
+    .boxed()
+}
+
+/// first batch of an ordinary consecutive history
+fn size_first() -> BoxedStrategy<u32> {
+    prop_oneof![
+        10 => proptest::sample::select(vec![1u32, 2, 31, 32, 33, 99, 100]),
+        2 => 3u32..70,
+        4 => proptest::sample::select(vec![BUCKET - 1, BUCKET, BUCKET + 1, BUCKET - 2, BUCKET - 33]),
+        1 => proptest::sample::select(vec![2 * BUCKET, 2 * BUCKET - 1]),
+        1 => proptest::sample::select(vec![0u32, MAX_BATCH + 1]),
+    ]
+    .boxed()
+}
+/// later batches: mostly small (a small batch after a 3199-batch crosses the bucket edge)
+fn size_later() -> BoxedStrategy<u32> {
+    prop_oneof![
+        24 => proptest::sample::select(vec![1u32, 2, 31, 32, 33, 99, 100]),
+        6 => 3u32..70,
+        1 => proptest::sample::select(vec![BUCKET - 1, BUCKET, BUCKET + 1]),
+        2 => proptest::sample::select(vec![0u32, MAX_BATCH + 1, u32::MAX]),
+    ]
+    .boxed()
+}
+
+fn op_strategy(target: Target) -> BoxedStrategy<Op> {
+    let kind = target.kind();
+    let tok = tok_strategy(kind);
+    let (w_mint, w_id, w_batch) = match (kind, target.explicit()) {
+        (Kind::Cons, _) => (0, 0, 3),
+        (_, true) => (4, 4, 0),
+        (_, false) => (7, 0, 0),
+    };
+    prop_oneof![
+        w_mint => any::<u16>().prop_map(|to| Op::Mint { to }),
+        w_id => (any::<u16>(), idsel_strategy()).prop_map(|(to, id)| Op::MintId { to, id }),
+        w_batch => (any::<u16>(), size_later()).prop_map(|(to, size)| Op::Batch { to, size }),
+        6 => (tok.clone(), from_strategy(), any::<u16>()).prop_map(|(tok, from, to)| Op::Transfer { tok, from, to }),
+        3 => (tok.clone(), sp_strategy(), from_strategy(), any::<u16>())
+            .prop_map(|(tok, spender, from, to)| Op::TransferFrom { tok, spender, from, to }),
+        4 => (tok.clone(), from_strategy()).prop_map(|(tok, from)| Op::Burn { tok, from }),
+        2 => (tok.clone(), sp_strategy(), from_strategy()).prop_map(|(tok, spender, from)| Op::BurnFrom { tok, spender, from }),
+        1 => (tok.clone(), any::<u16>()).prop_map(|(tok, approved)| Op::Approve { tok, approved }),
+        1 => (any::<u16>(), any::<u16>()).prop_map(|(owner, operator)| Op::ApproveAll { owner, operator }),
+    ]
+    .boxed()
+}
+
+fn targets(kind: Kind) -> BoxedStrategy<Target> {
+    match kind {
+        // explicit-id minting exists only on the twins: half of the cases
+        Kind::Base => prop_oneof![Just(Target::ExBase), Just(Target::XBase)].boxed(),
+        Kind::Enum => prop_oneof![Just(Target::ExEnum), Just(Target::XEnum)].boxed(),
+        // a third on the twin (DESIGN §4 C10)
+        Kind::Cons => prop_oneof![2 => Just(Target::ExCons), 1 => Just(Target::XCons)].boxed(),
+    }
+}
+
+fn strategy_kind(kind: Kind, tier: Tier) -> BoxedStrategy<Case> {
+    let max_ops = tier.pick(40usize, if kind == Kind::Cons { 60usize } else { 80 });
+    (targets(kind), 100u32..5000)
+        .prop_flat_map(move |(target, seq)| {
+            let first: BoxedStrategy<Vec<Op>> = match kind {
+                // start every consecutive history with a batch so that there is something to move
+                Kind::Cons => (any::<u16>(), size_first()).prop_map(|(to, size)| vec![Op::Batch { to, size }]).boxed(),
+                _ => Just(vec![]).boxed(),
+            };
+            (first, proptest::collection::vec(op_strategy(target), 0..max_ops)).prop_map(move |(mut f, ops)| {
+                f.extend(ops);
+                Case { target, seq, ops: f }
+            })
+        })
+        .boxed()
+}
+
+/// few, expensive cases: 0..2 small/bucket-sized batches, then one batch of (almost) the maximum
+/// size, then a short tail of transfers/burns/small batches at the edges
+fn strategy_giant(tier: Tier) -> BoxedStrategy<Case> {
+    let tail = tier.pick(9usize, 13usize);
+    (
+        targets(Kind::Cons),
+        100u32..5000,
+        proptest::collection::vec((any::<u16>(), proptest::sample::select(vec![1u32, 31, 100, BUCKET - 1, BUCKET + 1])), 0..2),
+        any::<u16>(),
+        proptest::sample::select(vec![MAX_BATCH, MAX_BATCH - 1, MAX_BATCH, 9 * BUCKET + 1]),
+    )
+        .prop_flat_map(move |(target, seq, pre, to, giant)| {
+            proptest::collection::vec(op_strategy(target), 3..tail).prop_map(move |ops| {
+                let mut all: Vec<Op> = pre.iter().map(|(to, size)| Op::Batch { to: *to, size: *size }).collect();
+                all.push(Op::Batch { to, size: giant });
+                for o in &ops {
+                    // keep later batches of a giant history small (cost), but keep the refused sizes
+                    all.push(match o {
+                        Op::Batch { to, size } if *size > 100 && *size <= MAX_BATCH => Op::Batch { to: *to, size: 1 + *size % 100 },
+                        other => other.clone(),
+                    });
+                }
+                Case { target, seq, ops: all }
+            })
+        })
+        .boxed()
+}
+
+// ======================================================================== model
+
+#[derive(Default)]
+struct Model {
+    owner: BTreeMap<u32, usize>,
+    count: Vec<u32>,
+    /// ids burned and not re-minted
+    burned: BTreeSet<u32>,
+    /// every id ever handed out by explicit mints
+    explicit_issued: BTreeSet<u32>,
+    /// sequential batches (first, last); single sequential mints are batches of one
+    batches: Vec<(u32, u32)>,
+    /// one past the last sequentially issued id
+    next_id: u32,
+    approved: BTreeMap<u32, usize>,
+    operators: BTreeSet<(usize, usize)>,
+    touched: Vec<u32>,
+}
+
+impl Model {
+    fn exists(&self, id: u32) -> bool {
+        self.owner.contains_key(&id)
+    }
+    fn touch(&mut self, id: u32) {
+        if self.touched.last() != Some(&id) {
+            self.touched.push(id);
+        }
+    }
+    fn resolve_tok(&self, sel: &TokSel) -> u32 {
+        match sel {
+            TokSel::Existing(i) => {
+                if self.owner.is_empty() {
+                    self.next_id
+                } else {
+                    *self.owner.keys().nth(pick(*i, self.owner.len())).unwrap()
+                }
+            }
+            TokSel::BatchEdge(b, w) => {
+                if self.batches.is_empty() {
+                    return self.resolve_tok(&TokSel::Existing(*b));
+                }
+                let (f, l) = self.batches[pick(*b, self.batches.len())];
+                match w {
+                    0 => f,
+                    1 => l,
+                    2 => (f + 1).min(l),
+                    _ => l.saturating_sub(1).max(f),
+                }
+            }
+            TokSel::BucketEdge(k, d) => {
+                let nb = (self.next_id / BUCKET) as usize; // boundaries BUCKET*1 ..= BUCKET*nb lie in the issued range
+                if nb == 0 {
+                    return self.resolve_tok(&TokSel::Existing(*k));
+                }
+                let k = 1 + pick(*k, nb) as u32;
+                (k * BUCKET).saturating_add_signed(*d as i32)
+            }
+            TokSel::Burned(i) => {
+                if self.burned.is_empty() {
+                    self.next_id.saturating_add(7)
+                } else {
+                    *self.burned.iter().nth(pick(*i, self.burned.len())).unwrap()
+                }
+            }
+            TokSel::Fresh(d) => self.next_id.saturating_add(*d as u32),
+            TokSel::Near(i, d) => {
+                if self.touched.is_empty() {
+                    return self.resolve_tok(&TokSel::Existing(*i));
+                }
+                let n = self.touched.len();
+                // bias towards the most recent ones
+                let id = self.touched[n - 1 - pick(*i, n.min(6))];
+                id.saturating_add_signed(*d as i32)
+            }
+        }
+    }
+}
+
+fn explicit_id(m: &Model, sel: &IdSel) -> u32 {
+    match sel {
+        IdSel::High(k) => HIGH_BASE + *k as u32,
+        IdSel::Top(k) => u32::MAX - *k as u32,
+        IdSel::Mid(k) => (1u32 << 31) - 2 + *k as u32,
+        IdSel::ReBurned(i) => {
+            let b: Vec<u32> = m.burned.iter().copied().filter(|x| *x >= HIGH_BASE).collect();
+            if b.is_empty() {
+                HIGH_BASE + 100 + (*i as u32 & 7)
+            } else {
+                b[pick(*i, b.len())]
+            }
+        }
+    }
+}
+
+// ======================================================================== oracle
+
+fn sig(op: &str, clause: &str, t: Target) -> String {
+    format!("C10/{op}/{clause}/{}", t.kname())
+}
+
+/// A fully resolved state-changing call (plain data, account indices) — executed against the
+/// contract and, when it succeeded, logged so that the history can be re-run in a fresh Env.
+#[derive(Clone, Debug)]
+enum Rec {
+    Mint { to: usize },
+    MintId { to: usize, id: u32 },
+    Batch { to: usize, size: u32 },
+    Transfer { from: usize, to: usize, id: u32 },
+    TransferFrom { sp: usize, from: usize, to: usize, id: u32 },
+    Burn { from: usize, id: u32 },
+    BurnFrom { sp: usize, from: usize, id: u32 },
+    Approve { owner: usize, approved: usize, id: u32 },
+    ApproveAll { owner: usize, operator: usize },
+}
+
+/// approvals in C10 never expire (the ledger does not move)
+const FAR: u32 = 100_000;
+
+fn exec_rec(t: &Nft, r: &Rec, seq0: u32) -> Result<Val, String> {
+    let a = |i: &usize| t.v(&t.accts[*i]);
+    match r {
+        Rec::Mint { to } => t.invoke("mint", &[a(to)], Some(&t.admin)),
+        Rec::MintId { to, id } => t.invoke("mint_id", &[a(to), t.v(id)], Some(&t.admin)),
+        Rec::Batch { to, size } => t.invoke("batch_mint", &[a(to), t.v(size)], Some(&t.admin)),
+        Rec::Transfer { from, to, id } => t.invoke("transfer", &[a(from), a(to), t.v(id)], Some(&t.accts[*from])),
+        Rec::TransferFrom { sp, from, to, id } => t.invoke("transfer_from", &[a(sp), a(from), a(to), t.v(id)], Some(&t.accts[*sp])),
+        Rec::Burn { from, id } => t.invoke("burn", &[a(from), t.v(id)], Some(&t.accts[*from])),
+        Rec::BurnFrom { sp, from, id } => t.invoke("burn_from", &[a(sp), a(from), t.v(id)], Some(&t.accts[*sp])),
+        Rec::Approve { owner, approved, id } => {
+            t.invoke("approve", &[a(owner), a(approved), t.v(id), t.v(&(seq0 + FAR))], Some(&t.accts[*owner]))
+        }
+        Rec::ApproveAll { owner, operator } => t.invoke("approve_for_all", &[a(owner), a(operator), t.v(&(seq0 + FAR))], Some(&t.accts[*owner])),
+    }
+}
+
+/// quick tier: full scan after every step while at most this many tokens exist, windows beyond
+const FULL_LIMIT_QUICK: usize = 700;
+/// thorough tier: one bucket and a bit
+const FULL_LIMIT_THOROUGH: usize = 1500;
+/// A full scan of more than this many tokens is sharded over fresh Envs (history re-run per shard):
+/// the test host's storage map costs O(#keys ever read in the Env) for the first read of each key,
+/// so reading N distinct ids in one Env costs N^2/2 key comparisons.
+const SHARD_ABOVE: usize = 1200;
+const SHARD: usize = 500;
+
+/// ids to scan in window mode (sorted, all existing per model)
+fn window_ids(m: &Model, thorough: bool) -> Vec<u32> {
+    let mut set: BTreeSet<u32> = BTreeSet::new();
+    let mut around = |c: u32, r: u32| {
+        let lo = c.saturating_sub(r);
+        let hi = c.saturating_add(r);
+        for (id, _) in m.owner.range(lo..=hi) {
+            set.insert(*id);
+        }
+    };
+    // +-40 around every touched id, every batch edge and every bucket edge (quick: the 4 most
+    // recently touched ids / 3 newest batches get +-40, older ones a narrow window)
+    let n = m.touched.len();
+    for (i, t) in m.touched.iter().enumerate() {
+        around(*t, if thorough || i + 4 >= n { 40 } else { 3 });
+    }
+    let nb = m.batches.len();
+    for (i, (f, l)) in m.batches.iter().enumerate() {
+        let r = if thorough || i + 3 >= nb { 40 } else { 3 };
+        around(*f, r);
+        around(*l, r);
+    }
+    let mut k = 1;
+    while k * BUCKET <= m.next_id.saturating_add(BUCKET) {
+        around(k * BUCKET, 40);
+        k += 1;
+    }
+    // ids spread over the issued range (fixed positions: the host makes first reads expensive)
+    if m.next_id > 0 {
+        let span = m.next_id as u64;
+        let n_spread = if thorough { 500u64 } else { 100 };
+        for j in 0..n_spread {
+            let id = (j * span) / n_spread + (j * 37) % (span / n_spread + 1);
+            if id < span && m.exists(id as u32) {
+                set.insert(id as u32);
+            }
+        }
+    }
+    for (id, _) in m.owner.range(HIGH_BASE..) {
+        set.insert(*id);
+    }
+    set.into_iter().collect()
+}
+
+struct Checker {
+    /// owners observed by the previous scan (id -> account index), to tell "changed" from "wrong"
+    prev: BTreeMap<u32, usize>,
+}
+
+impl Checker {
+    /// Compare `owner_of` for `ids` (all existing per model) with the model.
+    fn check_owners(&mut self, t: &Nft, m: &Model, ids: &[u32], op: &str, touched: Option<u32>, what: &str) -> R {
+        let got = t.read_owners(ids);
+        for (id, g) in ids.iter().zip(got.iter()) {
+            let want = m.owner[id];
+            let ok = matches!(g, Some(a) if *a == t.accts[want]);
+            if !ok {
+                let shown = match g {
+                    None => "no owner (getter failed)".to_string(),
+                    Some(a) => match t.acct_index(a) {
+                        Some(i) => format!("account #{i}"),
+                        None => "an unknown address".to_string(),
+                    },
+                };
+                let clause = if Some(*id) == touched {
+                    "touched-token-wrong-owner"
+                } else if self.prev.get(id) == Some(&want) {
+                    "other-token-changed-owner"
+                } else if g.is_none() {
+                    "existing-token-without-owner"
+                } else {
+                    "wrong-owner"
+                };
+                bail!(sig(op, clause, t.target), "{what}: owner_of({id}) reports {shown}, the ownership map says account #{want}");
+            }
+        }
+        for id in ids {
+            self.prev.insert(*id, m.owner[id]);
+        }
+        Ok(())
+    }
+}
+
+fn check_balances(t: &Nft, m: &Model, op: &str, what: &str) -> R {
+    let b = t.read_balances();
+    for (i, (got, want)) in b.iter().zip(m.count.iter()).enumerate() {
+        ensure!(got == want, sig(op, "balance-ne-owned-count", t.target), "{what}: balance(account #{i}) = {got}, but it owns {want} tokens");
+    }
+    Ok(())
+}
+
+/// ids that must NOT exist: entry-point `owner_of` (and `token_uri` for `uri_too`) must fail
+fn check_absent(t: &Nft, m: &Model, ids: &[u32], uri_too: &[u32], op: &str, what: &str, ctx: &mut Ctx) -> R {
+    for id in ids {
+        if m.exists(*id) {
+            continue;
+        }
+        ctx.class("absent_probe");
+        let r = t.api_owner_of(*id);
+        let cl = if m.burned.contains(id) { "burned-token-has-owner" } else { "unissued-token-has-owner" };
+        ensure!(r.is_err(), sig(op, cl, t.target), "{what}: owner_of({id}) succeeded for an id that does not exist");
+        if uri_too.contains(id) {
+            let u = t.api_token_uri(*id);
+            ensure!(u.is_err(), sig(op, "token_uri-for-nonexistent", t.target), "{what}: token_uri({id}) succeeded for an id that does not exist");
+        }
+    }
+    Ok(())
+}
+
+fn check_uris(t: &Nft, ids: &[u32], op: &str, what: &str) -> R {
+    let got = t.read_uri_exists(ids);
+    for (id, ok) in ids.iter().zip(got) {
+        ensure!(ok, sig(op, "token_uri-missing-for-existing", t.target), "{what}: token_uri({id}) failed for an existing token");
+    }
+    Ok(())
+}
+
+/// enumerable lists == model (as sets), no duplicates, index == count fails
+fn check_enum(t: &Nft, m: &Model, op: &str, what: &str, probe_accts: &[usize]) -> Result<EnumDump, Violation> {
+    let d = t.read_enum(m.owner.len() as u32, &m.count);
+    ensure!(
+        d.total as usize == m.owner.len(),
+        sig(op, "total_supply-ne-existing", t.target),
+        "{what}: total_supply() = {}, existing tokens = {}",
+        d.total,
+        m.owner.len()
+    );
+    let mut seen = BTreeSet::new();
+    for (i, x) in d.global.iter().enumerate() {
+        let Some(id) = x else { bail!(sig(op, "global-index-gap", t.target), "{what}: get_token_id({i}) failed below total_supply {}", d.total) };
+        ensure!(m.exists(*id), sig(op, "global-list-nonexistent-token", t.target), "{what}: get_token_id({i}) = {id}, which does not exist");
+        ensure!(seen.insert(*id), sig(op, "global-list-duplicate", t.target), "{what}: token {id} appears twice in the global list");
+    }
+    ensure!(seen.len() == m.owner.len(), sig(op, "global-list-incomplete", t.target), "{what}: global list has {} distinct tokens of {}", seen.len(), m.owner.len());
+    for (a, list) in d.per_owner.iter().enumerate() {
+        let mut seen = BTreeSet::new();
+        for (i, x) in list.iter().enumerate() {
+            let Some(id) = x else {
+                bail!(sig(op, "owner-index-gap", t.target), "{what}: get_owner_token_id(#{a}, {i}) failed below balance {}", m.count[a])
+            };
+            ensure!(
+                m.owner.get(id) == Some(&a),
+                sig(op, "owner-list-foreign-token", t.target),
+                "{what}: get_owner_token_id(#{a}, {i}) = {id}, owned by {:?}",
+                m.owner.get(id)
+            );
+            ensure!(seen.insert(*id), sig(op, "owner-list-duplicate", t.target), "{what}: token {id} appears twice in the list of #{a}");
+        }
+        ensure!(seen.len() as u32 == m.count[a], sig(op, "owner-list-incomplete", t.target), "{what}: list of #{a} has {} tokens of {}", seen.len(), m.count[a]);
+    }
+    // index == count must fail (entry points)
+    let n = m.owner.len() as u32;
+    let r = t.get::<u32>("get_token_id", &[t.v(&n)]);
+    ensure!(r.is_err(), sig(op, "global-index-past-end-readable", t.target), "{what}: get_token_id({n}) succeeded with total_supply {n}");
+    for a in probe_accts {
+        let c = m.count[*a];
+        let r = t.get::<u32>("get_owner_token_id", &[t.v(&t.accts[*a]), t.v(&c)]);
+        ensure!(r.is_err(), sig(op, "owner-index-past-end-readable", t.target), "{what}: get_owner_token_id(#{a}, {c}) succeeded with balance {c}");
+    }
+    // entry point agrees with the bulk read
+    let ts = t.get::<u32>("total_supply", &[]).map_err(|er| violation(sig(op, "total_supply-failed", t.target), er))?;
+    ensure!(ts == d.total, sig(op, "total_supply-entry-point-differs", t.target), "{what}: entry point {ts}, library getter {}", d.total);
+    Ok(d)
+}
+
+/// Full scan of a large id space, sharded over fresh Envs in which the logged history is re-run
+/// (deterministic host: identical state), so that no Env reads more than SHARD distinct ids.
+#[allow(clippy::too_many_arguments)]
+fn sharded_full_scan(case: &Case, log: &[Rec], m: &Model, ck: &mut Checker, op: &str, touched: Option<u32>, what: &str, uris: bool) -> R {
+    let ids: Vec<u32> = m.owner.keys().copied().collect();
+    for shard in ids.chunks(SHARD) {
+        let t2 = Nft::setup(case.target, N_ACCTS, case.seq, envx::BIG_TTL);
+        for r in log {
+            if let Err(er) = exec_rec(&t2, r, case.seq) {
+                bail!(sig("replay", "history-not-reproducible", case.target), "{what}: re-running {:?} in a fresh Env failed: {er}", r)
+            }
+        }
+        ck.check_owners(&t2, m, shard, op, touched, what)?;
+        if uris {
+            check_uris(&t2, shard, op, what)?;
+        }
+    }
+    Ok(())
+}
+
+#[derive(PartialEq, Clone, Copy)]
+enum Eff {
+    None,
+    Mint,
+    Move,
+    Burn,
+}
+
+pub fn run(case: &Case, ctx: &mut Ctx) -> R {
+    let target = case.target;
+    let kind = target.kind();
+    let thorough = ctx.tier() == Tier::Thorough;
+    let t = Nft::setup(target, N_ACCTS, case.seq, envx::BIG_TTL);
+    let mut m = Model { count: vec![0; N_ACCTS], ..Default::default() };
+    let mut ck = Checker { prev: BTreeMap::new() };
+    let full_limit = if thorough { FULL_LIMIT_THOROUGH } else { FULL_LIMIT_QUICK };
+    let mut log: Vec<Rec> = vec![];
+
+    // non-triviality bookkeeping
+    let mut crossing_batch = false;
+    let mut cons_moves: BTreeSet<u32> = BTreeSet::new();
+    let mut cons_edge_move = false;
+    let mut enum_nonlast_removal = false;
+    let mut base_burned = false;
+    let mut base_mint_after_burn = false;
+    let mut last_enum: Option<EnumDump> = None;
+    let mut windowed = false;
+
+    let n_ops = case.ops.len();
+    let giant_case = case.ops.iter().any(|o| matches!(o, Op::Batch { size, .. } if *size > 3 * BUCKET && *size <= MAX_BATCH));
+    for (step, op) in case.ops.iter().enumerate() {
+        let what_op: String = format!("step {step} {:?}", op);
+        let mut touched: Option<u32> = None;
+        let mut eff = Eff::None;
+        let mut probe: Vec<u32> = vec![];
+        let mut parties: Vec<usize> = vec![];
+        let opname: &'static str;
+        match op {
+            Op::Mint { to } => {
+                opname = "mint";
+                if kind == Kind::Cons {
+                    ctx.class("skipped_op");
+                    continue;
+                }
+                let ti = pick(*to, N_ACCTS);
+                let rec = Rec::Mint { to: ti };
+                let r = exec_rec(&t, &rec, case.seq).and_then(|v| u32::try_from_val(&t.e, &v).map_err(|_| "unexpected return type".to_string()));
+                ctx.op(r.is_ok());
+                // documented: sequential mint by the admin succeeds
+                let id = match r {
+                    Ok(id) => id,
+                    Err(er) => bail!(sig(opname, "refused", target), "{what_op}: sequential mint failed: {er}"),
+                };
+                log.push(rec);
+                ensure!(
+                    id >= m.next_id,
+                    sig(opname, "sequential-id-not-increasing", target),
+                    "{what_op}: returned id {id}, but ids below {} were already issued",
+                    m.next_id
+                );
+                ensure!(!m.exists(id) && !m.burned.contains(&id), sig(opname, "id-reused", target), "{what_op}: id {id} was issued before");
+                if !m.burned.is_empty() {
+                    ctx.class("mint_after_burn");
+                    if base_burned {
+                        base_mint_after_burn = true;
+                    }
+                }
+                m.owner.insert(id, ti);
+                m.count[ti] += 1;
+                m.batches.push((id, id));
+                m.next_id = id + 1;
+                m.touch(id);
+                touched = Some(id);
+                eff = Eff::Mint;
+                parties.push(ti);
+            }
+            Op::MintId { to, id } => {
+                opname = "mint_id";
+                if !target.explicit() {
+                    ctx.class("skipped_op");
+                    continue;
+                }
+                let ti = pick(*to, N_ACCTS);
+                let id = explicit_id(&m, id);
+                if m.exists(id) {
+                    // uniqueness is the caller's duty (Base::mint docs): never mint an id in use
+                    ctx.class("explicit_id_in_use_skipped");
+                    continue;
+                }
+                if m.burned.contains(&id) {
+                    ctx.class("explicit_remint_of_burned");
+                }
+                let rec = Rec::MintId { to: ti, id };
+                let r = exec_rec(&t, &rec, case.seq);
+                ctx.op(r.is_ok());
+                if let Err(er) = r {
+                    bail!(sig(opname, "refused", target), "{what_op}: explicit mint of unused id {id} failed: {er}")
+                }
+                log.push(rec);
+                ctx.class("explicit_mint");
+                m.owner.insert(id, ti);
+                m.count[ti] += 1;
+                m.burned.remove(&id);
+                m.explicit_issued.insert(id);
+                m.touch(id);
+                touched = Some(id);
+                eff = Eff::Mint;
+                parties.push(ti);
+                if base_burned {
+                    base_mint_after_burn = true;
+                }
+            }
+            Op::Batch { to, size } => {
+                opname = "batch_mint";
+                if kind != Kind::Cons {
+                    ctx.class("skipped_op");
+                    continue;
+                }
+                let ti = pick(*to, N_ACCTS);
+                let rec = Rec::Batch { to: ti, size: *size };
+                let r = exec_rec(&t, &rec, case.seq).and_then(|v| u32::try_from_val(&t.e, &v).map_err(|_| "unexpected return type".to_string()));
+                ctx.op(r.is_ok());
+                if *size == 0 || *size > MAX_BATCH {
+                    // documented: InvalidAmount
+                    ctx.class("batch_invalid_size");
+                    ensure!(r.is_err(), sig(opname, "invalid-amount-accepted", target), "{what_op}: batch of {size} tokens was accepted");
+                } else {
+                    let last = match r {
+                        Ok(x) => x,
+                        Err(er) => bail!(sig(opname, "refused", target), "{what_op}: batch of {size} failed: {er}"),
+                    };
+                    log.push(rec);
+                    ensure!(
+                        last >= m.next_id && last - m.next_id >= size - 1,
+                        sig(opname, "batch-ids-not-increasing", target),
+                        "{what_op}: returned last id {last} for {size} tokens, but ids below {} were already issued",
+                        m.next_id
+                    );
+                    let first = last - (size - 1);
+                    ctx.class(match *size {
+                        1..=100 => "batch_small",
+                        101..=7000 => "batch_bucket_sized",
+                        _ => "batch_giant",
+                    });
+                    if *size == MAX_BATCH {
+                        ctx.class("batch_max_size");
+                    }
+                    if first / BUCKET != last / BUCKET {
+                        ctx.class("batch_crossing_bucket");
+                        crossing_batch = true;
+                    }
+                    for id in first..=last {
+                        m.owner.insert(id, ti);
+                    }
+                    m.count[ti] += size;
+                    m.batches.push((first, last));
+                    m.next_id = last + 1;
+                    m.touch(first);
+                    m.touch(last);
+                    touched = Some(last);
+                    eff = Eff::Mint;
+                    parties.push(ti);
+                }
+            }
+            Op::Transfer { tok, from, to } | Op::TransferFrom { tok, from, to, .. } => {
+                let id = m.resolve_tok(tok);
+                let owner = m.owner.get(&id).copied();
+                let fi = match (from, owner) {
+                    (FromSel::Owner, Some(o)) => o,
+                    (FromSel::Owner, None) => 0,
+                    (FromSel::Acct(a), _) => pick(*a, N_ACCTS),
+                };
+                let ti = pick(*to, N_ACCTS);
+                let (rec, allowed);
+                if let Op::TransferFrom { spender, .. } = op {
+                    opname = "transfer_from";
+                    let si = resolve_spender(&m, spender, id, owner);
+                    allowed = owner == Some(fi) && spender_allowed(&m, si, fi, id);
+                    rec = Rec::TransferFrom { sp: si, from: fi, to: ti, id };
+                    if si != fi {
+                        ctx.class("spender_not_owner");
+                    }
+                } else {
+                    opname = "transfer";
+                    allowed = owner == Some(fi);
+                    rec = Rec::Transfer { from: fi, to: ti, id };
+                }
+                let r = exec_rec(&t, &rec, case.seq);
+                ctx.op(r.is_ok());
+                probe.push(id);
+                match (&r, allowed) {
+                    (Ok(_), false) => bail!(
+                        sig(opname, "moved-without-ownership", target),
+                        "{what_op}: token {id} (owner {:?}) was transferred from account #{fi}",
+                        owner
+                    ),
+                    (Err(er), true) => bail!(sig(opname, "refused", target), "{what_op}: rightful transfer of token {id} failed: {er}"),
+                    (Err(_), false) => {
+                        ctx.class(if owner.is_none() { "op_on_nonexistent" } else { "op_wrong_from_or_spender" });
+                    }
+                    (Ok(_), true) => {
+                        log.push(rec);
+                        if fi == ti {
+                            ctx.class("self_transfer");
+                        }
+                        if kind == Kind::Enum && fi != ti {
+                            if let Some(d) = &last_enum {
+                                if d.per_owner[fi].last() != Some(&Some(id)) {
+                                    enum_nonlast_removal = true;
+                                    ctx.class("enum_nonlast_owner_removal");
+                                }
+                            }
+                        }
+                        m.owner.insert(id, ti);
+                        m.count[fi] -= 1;
+                        m.count[ti] += 1;
+                        m.approved.remove(&id);
+                        m.touch(id);
+                        touched = Some(id);
+                        eff = Eff::Move;
+                        parties.push(fi);
+                        parties.push(ti);
+                    }
+                }
+            }
+            Op::Burn { tok, from } | Op::BurnFrom { tok, from, .. } => {
+                let id = m.resolve_tok(tok);
+                let owner = m.owner.get(&id).copied();
+                let fi = match (from, owner) {
+                    (FromSel::Owner, Some(o)) => o,
+                    (FromSel::Owner, None) => 0,
+                    (FromSel::Acct(a), _) => pick(*a, N_ACCTS),
+                };
+                let (rec, allowed);
+                if let Op::BurnFrom { spender, .. } = op {
+                    opname = "burn_from";
+                    let si = resolve_spender(&m, spender, id, owner);
+                    allowed = owner == Some(fi) && spender_allowed(&m, si, fi, id);
+                    rec = Rec::BurnFrom { sp: si, from: fi, id };
+                    if si != fi {
+                        ctx.class("spender_not_owner");
+                    }
+                } else {
+                    opname = "burn";
+                    allowed = owner == Some(fi);
+                    rec = Rec::Burn { from: fi, id };
+                }
+                let r = exec_rec(&t, &rec, case.seq);
+                ctx.op(r.is_ok());
+                probe.push(id);
+                match (&r, allowed) {
+                    (Ok(_), false) => bail!(
+                        sig(opname, "burned-without-ownership", target),
+                        "{what_op}: token {id} (owner {:?}) was burned from account #{fi}",
+                        owner
+                    ),
+                    (Err(er), true) => bail!(sig(opname, "refused", target), "{what_op}: rightful burn of token {id} failed: {er}"),
+                    (Err(_), false) => {
+                        ctx.class(if owner.is_none() { "op_on_nonexistent" } else { "op_wrong_from_or_spender" });
+                    }
+                    (Ok(_), true) => {
+                        log.push(rec);
+                        if kind == Kind::Enum {
+                            if let Some(d) = &last_enum {
+                                if d.per_owner[fi].last() != Some(&Some(id)) {
+                                    enum_nonlast_removal = true;
+                                    ctx.class("enum_nonlast_owner_removal");
+                                }
+                                if d.global.last() != Some(&Some(id)) {
+                                    enum_nonlast_removal = true;
+                                    ctx.class("enum_nonlast_global_removal");
+                                }
+                            }
+                        }
+                        m.owner.remove(&id);
+                        m.count[fi] -= 1;
+                        m.approved.remove(&id);
+                        m.burned.insert(id);
+                        ck.prev.remove(&id);
+                        m.touch(id);
+                        touched = Some(id);
+                        eff = Eff::Burn;
+                        parties.push(fi);
+                        base_burned = true;
+                        ctx.class("burn_ok");
+                    }
+                }
+            }
+            Op::Approve { tok, approved } => {
+                opname = "approve";
+                let id = m.resolve_tok(tok);
+                let Some(o) = m.owner.get(&id).copied() else {
+                    ctx.class("skipped_op");
+                    continue;
+                };
+                let ai = pick(*approved, N_ACCTS);
+                let rec = Rec::Approve { owner: o, approved: ai, id };
+                let r = exec_rec(&t, &rec, case.seq);
+                ctx.op(r.is_ok());
+                if let Err(er) = r {
+                    bail!(sig(opname, "refused", target), "{what_op}: owner's approve of token {id} failed: {er}")
+                }
+                log.push(rec);
+                m.approved.insert(id, ai);
+            }
+            Op::ApproveAll { owner, operator } => {
+                opname = "approve_for_all";
+                let o = pick(*owner, N_ACCTS);
+                let p = pick(*operator, N_ACCTS);
+                let rec = Rec::ApproveAll { owner: o, operator: p };
+                let r = exec_rec(&t, &rec, case.seq);
+                ctx.op(r.is_ok());
+                if let Err(er) = r {
+                    bail!(sig(opname, "refused", target), "{what_op}: approve_for_all failed: {er}")
+                }
+                log.push(rec);
+                m.operators.insert((o, p));
+            }
+        }
+
+        if kind == Kind::Cons && matches!(eff, Eff::Move | Eff::Burn) && crossing_batch {
+            let id = touched.unwrap();
+            cons_moves.insert(id);
+            let bucket_edge = id % BUCKET == 0 || id % BUCKET == BUCKET - 1;
+            let batch_edge = m.batches.iter().any(|(f, l)| *f == id || *l == id);
+            if bucket_edge {
+                ctx.class("cons_move_at_bucket_edge");
+            }
+            if batch_edge {
+                ctx.class("cons_move_at_batch_edge");
+            }
+            if bucket_edge || batch_edge {
+                cons_edge_move = true;
+            }
+        }
+
+        // ------------------------------------------------ state oracle after the step
+        let last_step = step + 1 == n_ops;
+        let full = m.owner.len() <= full_limit;
+        if full {
+            let ids: Vec<u32> = m.owner.keys().copied().collect();
+            ctx.class_n("owner_reads", ids.len() as u64);
+            ck.check_owners(&t, &m, &ids, opname, touched, &what_op)?;
+        } else if thorough && (giant_case || step % 4 == 0 || last_step) {
+            // thorough: everything, always (giant sub) / every 4th step (bucket-sized histories)
+            ctx.class("sharded_full_scan");
+            ctx.class_n("owner_reads", m.owner.len() as u64);
+            sharded_full_scan(case, &log, &m, &mut ck, opname, touched, &what_op, false)?;
+        } else {
+            windowed = true;
+            ctx.class("window_scan");
+            let ids = window_ids(&m, thorough);
+            ctx.class_n("owner_reads", ids.len() as u64);
+            ck.check_owners(&t, &m, &ids, opname, touched, &what_op)?;
+        }
+        check_balances(&t, &m, opname, &what_op)?;
+
+        // absent ids: the probed id, neighbours of the touched id, margin beyond the counter, a
+        // rotating sample of burned ids, unissued ids of the explicit range
+        let mut absent = probe.clone();
+        let mut uri_absent = probe.clone();
+        if let Some(x) = touched {
+            absent.extend([x, x.saturating_add(1), x.saturating_sub(1)]);
+            uri_absent.push(x);
+        }
+        for d in 0..4u32 {
+            absent.push(m.next_id.saturating_add(d));
+        }
+        uri_absent.push(m.next_id);
+        if !m.burned.is_empty() {
+            let n = m.burned.len();
+            for j in 0..3usize.min(n) {
+                absent.push(*m.burned.iter().nth((step * 3 + j) % n).unwrap());
+            }
+            uri_absent.push(*m.burned.iter().nth(step % n).unwrap());
+        }
+        absent.push(HIGH_BASE - 1 - (step as u32 % 5));
+        if target.explicit() {
+            absent.push(HIGH_BASE + 40 + (step as u32 % 7));
+            absent.push(u32::MAX - 5 - (step as u32 % 3));
+        }
+        absent.sort();
+        absent.dedup();
+        check_absent(&t, &m, &absent, &uri_absent, opname, &what_op, ctx)?;
+
+        // token_uri for a window of existing ids (all of them at the end)
+        let mut uri_ids: Vec<u32> = vec![];
+        if let Some(x) = touched {
+            for d in -2i32..=2 {
+                let y = x.saturating_add_signed(d);
+                if m.exists(y) {
+                    uri_ids.push(y);
+                }
+            }
+        }
+        let n_ex = m.owner.len();
+        if n_ex > 0 {
+            for j in 0..6usize {
+                uri_ids.push(*m.owner.keys().nth((j * n_ex) / 6).unwrap());
+            }
+        }
+        uri_ids.sort();
+        uri_ids.dedup();
+        check_uris(&t, &uri_ids, opname, &what_op)?;
+
+        // entry points agree with the library getters for the touched token and its neighbours
+        if let Some(x) = touched {
+            for y in [x.saturating_sub(1), x, x.saturating_add(1)] {
+                if let Some(o) = m.owner.get(&y) {
+                    let r = t.api_owner_of(y);
+                    ensure!(
+                        matches!(&r, Ok(a) if *a == t.accts[*o]),
+                        sig(opname, "entry-point-owner_of-differs", target),
+                        "{what_op}: entry point owner_of({y}) = {:?}, ownership map says account #{o}",
+                        r.map(|a| t.acct_index(&a))
+                    );
+                }
+            }
+        }
+        for p in &parties {
+            let r = t.api_balance(&t.accts[*p]);
+            ensure!(
+                r == Ok(m.count[*p]),
+                sig(opname, "entry-point-balance-differs", target),
+                "{what_op}: entry point balance(#{p}) = {:?}, owned tokens = {}",
+                r,
+                m.count[*p]
+            );
+        }
+
+        if kind == Kind::Enum {
+            let accts: Vec<usize> = if last_step { (0..N_ACCTS).collect() } else { parties.clone() };
+            last_enum = Some(check_enum(&t, &m, opname, &what_op, &accts)?);
+        }
+    }
+
+    // ---------------------------------------------------- end of history: everything
+    let what = "final sweep";
+    let ids: Vec<u32> = m.owner.keys().copied().collect();
+    if ids.len() > SHARD_ABOVE {
+        ctx.class("final_sharded_full_scan");
+        ctx.class_n("owner_reads", ids.len() as u64);
+        sharded_full_scan(case, &log, &m, &mut ck, "final", None, what, true)?;
+    } else {
+        if windowed {
+            ctx.class("final_full_scan_after_windows");
+            ctx.class_n("owner_reads", ids.len() as u64);
+            ck.check_owners(&t, &m, &ids, "final", None, what)?;
+        }
+        check_uris(&t, &ids, "final", what)?;
+    }
+    // balance(a) == number of tokens owner_of reports for a (the full scan has just confirmed the map)
+    check_balances(&t, &m, "final", what)?;
+    let burned: Vec<u32> = m.burned.iter().copied().collect();
+    check_absent(&t, &m, &burned, &burned, "final", what, ctx)?;
+    if kind == Kind::Enum {
+        check_enum(&t, &m, "final", what, &(0..N_ACCTS).collect::<Vec<_>>())?;
+    }
+
+    let nontrivial = match kind {
+        Kind::Cons => crossing_batch && cons_moves.len() >= 2 && cons_edge_move,
+        Kind::Enum => enum_nonlast_removal,
+        Kind::Base => base_mint_after_burn,
+    };
+    if nontrivial {
+        ctx.nontrivial = true;
+        ctx.class("nontrivial");
+        ctx.class(match kind {
+            Kind::Cons => "nontrivial_cons",
+            Kind::Enum => "nontrivial_enum",
+            Kind::Base => "nontrivial_base",
+        });
+    }
+    Ok(())
+}
+
+fn resolve_spender(m: &Model, sp: &SpSel, id: u32, owner: Option<usize>) -> usize {
+    match sp {
+        SpSel::Owner => owner.unwrap_or(0),
+        SpSel::Operator(i) => {
+            let ops: Vec<usize> = m.operators.iter().filter(|(o, _)| Some(*o) == owner).map(|(_, p)| *p).collect();
+            if ops.is_empty() {
+                pick(*i, N_ACCTS)
+            } else {
+                ops[pick(*i, ops.len())]
+            }
+        }
+        SpSel::Approved => m.approved.get(&id).copied().unwrap_or(owner.map(|o| (o + 1) % N_ACCTS).unwrap_or(1)),
+        SpSel::Acct(i) => pick(*i, N_ACCTS),
+    }
+}
+
+/// spender may act on `owner`'s token `id` (approvals in C10 never expire: no ledger movement)
+fn spender_allowed(m: &Model, sp: usize, owner: usize, id: u32) -> bool {
+    sp == owner || m.approved.get(&id) == Some(&sp) || m.operators.contains(&(owner, sp))
+}
+
+fn strat_base(tier: Tier) -> BoxedStrategy<Case> {
+    strategy_kind(Kind::Base, tier)
+}
+fn strat_enum(tier: Tier) -> BoxedStrategy<Case> {
+    strategy_kind(Kind::Enum, tier)
+}
+fn strat_cons(tier: Tier) -> BoxedStrategy<Case> {
+    strategy_kind(Kind::Cons, tier)
+}
 
 pub fn property() -> Property {
-    Property { id: "C10", rule: "", subs: vec![], floors: vec![], assumptions: vec![] }
+    Property {
+        id: "C10",
+        rule: "case = (target contract: example or harness twin of base/enumerable/consecutive, start ledger, history of <=40 (thorough 80) ops: \
+               sequential/explicit/batch mint (batch sizes incl. bucket size +-1, 2x bucket, 0 and max+1; sub `giant`: max and max-1), transfer, \
+               transfer_from, burn, burn_from with state-relative token selectors (existing, batch edge, bucket edge, neighbour of a touched id, \
+               burned, fresh), 4 accounts, self-transfers); non-trivial = consecutive: a batch crossing a bucket boundary followed by >=2 successful \
+               transfers/burns at distinct ids incl. a batch/bucket edge; enumerable: a successful removal of a non-last index; base: a burn \
+               followed by a further mint; distinct = distinct serialised case",
+        subs: vec![
+            gen_sub::<Case>("base", 600, 10000, strat_base, run),
+            gen_sub::<Case>("enumerable", 600, 10000, strat_enum, run),
+            gen_sub::<Case>("consecutive", 600, 1800, strat_cons, run),
+            gen_sub::<Case>("giant", 16, 48, strategy_giant, run),
+        ],
+        floors: vec![
+            ("nontrivial", 60, 600),
+            ("nontrivial_base", 30, 450),
+            ("nontrivial_enum", 30, 450),
+            ("nontrivial_cons", 10, 50),
+            ("batch_crossing_bucket", 15, 75),
+            ("cons_move_at_bucket_edge", 20, 100),
+            ("cons_move_at_batch_edge", 25, 125),
+            ("enum_nonlast_owner_removal", 50, 750),
+            ("enum_nonlast_global_removal", 60, 900),
+            ("explicit_mint", 150, 2200),
+            ("explicit_remint_of_burned", 10, 150),
+            ("self_transfer", 130, 1500),
+            ("batch_invalid_size", 12, 60),
+            ("batch_giant", 8, 24),
+            ("batch_max_size", 1, 4),
+            ("final_sharded_full_scan", 20, 100),
+            ("burn_ok", 400, 5000),
+            ("mint_after_burn", 250, 3500),
+            ("absent_probe", 20000, 200000),
+        ],
+        assumptions: vec![
+            "Soroban native test host (storage, rollback of failed invocations, auth matching) is trusted",
+            "explicit-id mints only use ids that are not in use and never ids from the sequential range (documented caller duty)",
+            "bulk owner_of/token_uri/enumeration reads go through the library getters inside a contract frame; entry points are cross-checked for touched ids",
+            "full scans of more than 7000 ids are sharded over fresh Envs in which the logged successful calls are re-run (the host is deterministic)",
+        ],
+    }
 }
